@@ -100,9 +100,11 @@ type World struct {
 	stopClosed    atomic.Bool
 	closeCalled   atomic.Bool
 	held          atomic.Bool // a goroutine is parked by the harness
+	heldN         atomic.Int32
 	inCb          atomic.Int32
 
 	park    atomic.Pointer[parkReq]
+	park2   atomic.Pointer[parkReq] // a second, simultaneous park (other goroutine, other point)
 	cbBlock atomic.Pointer[parkReq] // park inside the callback (name = "cb")
 
 	yield   *lib.Rand // random perturbation at hooks (nil = none)
@@ -168,6 +170,9 @@ func (w *World) perturb() {
 func (w *World) maybePark(name string, args []any) {
 	req := w.park.Load()
 	if req == nil || req.name != name {
+		req = w.park2.Load()
+	}
+	if req == nil || req.name != name {
 		return
 	}
 	if req.match != nil && !req.match(args) {
@@ -183,10 +188,13 @@ func (w *World) maybePark(name string, args []any) {
 		}
 	}
 	w.add(e)
+	w.heldN.Add(1)
 	w.held.Store(true)
 	close(req.parked)
 	<-req.release
-	w.held.Store(false)
+	if w.heldN.Add(-1) == 0 {
+		w.held.Store(false)
+	}
 	w.add(Ev{Kind: "unpark"})
 }
 
